@@ -659,3 +659,104 @@ def correspondence(ctx):
 
 def thorough_explore(ctx, cmp_):
     raise NotImplementedError
+
+
+# ------------------------------------------------------------------------------------------------
+# oracle: the property's sentences on the real coroutines (never calls the model)
+# ------------------------------------------------------------------------------------------------
+
+def consistent(a: S.AbsConn) -> bool:
+    """the outbound store agrees with the counter before the tasks start (what every earlier send left behind)"""
+    return a.stored_out + 1 == a.next_out and all(seq < a.next_out for seq, _ in a.out_rows)
+
+
+BODY_SKIP = {8, 9, 10, 34, 43, 52, 122}
+
+
+def body_of(fields):
+    return [(t, v) for t, v in fields if t not in BODY_SKIP]
+
+
+def judge(m: Machine, a: S.AbsConn):
+    """sentences of C14 on what the finished tasks did.  Returns [(sentence, detail)]."""
+    out = []
+    wire = []  # (task, fields) in wire order
+    for k, e in enumerate(m.eff):
+        if e[0] == "W":
+            wire.append((m.owner[k], S.bytes_to_fields(e[1])))
+    known = {seq: fs for seq, (_, fs) in a.out_rows}  # number -> frame that owns it
+    used = set(known)                                  # (every number below the initial counter is spent too)
+    last_new = a.next_out - 1
+    highest = a.next_out - 1
+    for task, fs in wire:
+        d = dict(fs)
+        try:
+            n = int(d.get(34))
+        except (TypeError, ValueError):
+            out.append(("frame-without-number", str(fs)[:200]))
+            continue
+        retrans = d.get(35) == "4" or d.get(43, "N") == "Y"
+        if retrans:
+            if d.get(35) == "4":
+                continue  # gap fill: stands for numbers it names; checked by C06
+            own = known.get(n)
+            if own is None or body_of(own) != body_of(fs):
+                out.append(("retransmission-of-foreign-number", f"34={n} task {task}"))
+            continue
+        if n in used or n < a.next_out:
+            out.append(("number-reused-by-new-message", f"34={n} task {task}"))
+        if n <= last_new:
+            out.append(("not-increasing", f"34={n} after {last_new} task {task}"))
+        last_new = max(last_new, n)
+        highest = max(highest, n)
+        used.add(n)
+        known[n] = fs
+    for k, e in enumerate(m.eff):
+        if e[0] in ("C", "R") and e[1] == "DuplicateSeqNo":
+            out.append(("duplicate-error", f"task {m.owner[k]} {e[0]}"))
+    post = S.parse_conn_tokens(m.dump())
+    rows = dict(post.out_rows)
+    for task, fs in wire:
+        d = dict(fs)
+        if d.get(35) == "4" or d.get(43, "N") == "Y" or not str(d.get(34, "")).isdigit():
+            continue
+        n = int(d[34])
+        r = rows.get(n)
+        if r is None:
+            out.append(("not-journaled", f"34={n} task {task}"))
+        elif r[1] != fs and not (dict(r[1]).get(43) == "Y" and body_of(r[1]) == body_of(fs)) and dict(r[1]).get(35) != "4":
+            out.append(("journaled-differently", f"34={n} task {task}"))
+    if m.all_done():
+        if post.stored_out + 1 != post.next_out:
+            out.append(("stored-counter", f"stored {post.stored_out} + 1 != next_num_out {post.next_out}"))
+        if post.next_out != highest + 1:
+            out.append(("final-counter", f"next_num_out {post.next_out} != highest sent {highest} + 1"))
+    return out
+
+
+def classify(m: Machine, sentences):
+    """signature of a failing schedule.  D21 class: a NEW message took its number while a _process_resend was
+    between its two set_seq_num calls (or had died there)."""
+    if any(t[0] == "alloc" and t[3] for t in m.trace):
+        return SIG_D21
+    kinds = sorted({s for s, _ in sentences})
+    if any(e[0] in ("C", "R") and e[1] == "Attribute" for e in m.eff):
+        return SIG_NOTRANSPORT
+    return "C14-" + "+".join(kinds)
+
+
+def oracle_run(m: Machine, scn, paused, letters):
+    """run the schedule to its end on the real coroutines and judge it; returns a failure dict or None"""
+    name, a, sr, tasks, _ = scn
+    m.start(a, sr, paused, tasks)
+    for l in letters:
+        m.step(l)
+    sent = judge(m, a)
+    if not sent:
+        return None
+    return {"signature": classify(m, sent), "what": "; ".join(f"{s}: {d}" for s, d in sent[:6]),
+            "input": make_entry(scn, paused, letters),
+            "expected": "new messages strictly increasing, no reuse, every frame journaled, no duplicate error, "
+                        "stored next = next_num_out = highest sent + 1",
+            "observed": {"sentences": sent[:10], "final": m.dump()[:600],
+                         "events": [t[:2] + (t[2] if t[0] != "write" else S.bytes_to_fields(t[2])[5:6],) for t in m.trace][:40]}}
